@@ -751,6 +751,10 @@ func (fr *Frame) makeSlice(in *ssa.MakeSlice) Value {
 		g.inconclusive("make slice with symbolic length")
 	}
 	if c.T != nil {
+		if n.C == 0 {
+			// make([]T, 0, n): the capacity is only a hint for what follows
+			return make(Slice, 0)
+		}
 		g.inconclusive("make slice with symbolic capacity")
 	}
 	if int64(n.C) < 0 || int64(c.C) < int64(n.C) || n.C > 1<<24 {
